@@ -45,7 +45,7 @@ func c07Table() []GuardReq {
 	res := "%T2%.FileContractResolutions[*]"
 	sp := res + ".Resolution.(types.V2StorageProof)"
 	pfc := res + ".Parent.V2FileContract"
-	add(req("v2-proof-root", V2T, "call consensus.storageProofRoot(call (consensus.State).StorageProofLeafHash(%ST%, "+sp+".Leaf), call (consensus.State).StorageProofLeafIndex(%ST%, "+pfc+".Filesize, "+sp+".ProofIndex.ChainIndex.ID, "+res+".Parent.ID), "+pfc+".Filesize, "+sp+".Proof)", opNE, pfc+".FileMerkleRoot",
+	add(req("v2-proof-root", V2T, "call consensus.storageProofRoot("+sp+".Proof, call (consensus.State).StorageProofLeafHash(%ST%, "+sp+".Leaf), call (consensus.State).StorageProofLeafIndex(%ST%, "+pfc+".Filesize, "+sp+".ProofIndex.ChainIndex.ID, "+res+".Parent.ID), "+pfc+".Filesize)", opNE, pfc+".FileMerkleRoot",
 		"a v2 storage proof must prove the leaf chosen by the chain-derived challenge (proof-index block ID, contract ID, committed size) under the root committed in the contract", "ok:"+sp+" is true"))
 	return t
 }
